@@ -370,7 +370,8 @@ def run_c15(rep, tier):
         base = dict(ctls_oracle=True, outside_d7=d7, assume_all_fair=(logic == 'CTLS' and d10))
         for nf in (1, 2):
             tasks += [(logic, 2, ch, dict(base, fair=nf)) for ch in chunks(exact_forms if logic == 'CTL' else exact_forms[::3], 12)]
-        tasks += [(logic, 3, ch, dict(base, fair=1, aps=('p',))) for ch in chunks([x for x in exact_forms if 'q' not in x][::(1 if logic == 'CTL' else 3)], 6)]
+        # n=3 with both atoms (18 unknowns): the smallest size at which fair and unfair states coexist outside class D7
+        tasks += [(logic, 3, ch, dict(base, fair=1, audit=False)) for ch in chunks(exact_forms[::(1 if logic == 'CTL' else 4)], 6)]
         tasks += [(logic, 2, ch, dict(base, fair=0)) for ch in chunks(exact_forms[::4], 12)]              # F=[]: every path is fair
         tasks += [(logic, 2, ch, dict(base, fair=1, fair_const=True)) for ch in chunks(exact_forms[::4], 12)]   # F=[S]
     inside = [('CTL', 2, egs, dict(base, fair=1, only_safety=True)), ('CTLS', 2, egs, dict(base, fair=1, only_safety=True)),
@@ -379,7 +380,7 @@ def run_c15(rep, tier):
         inside.append(('LTL', 2, ['A G p', 'A (p U q)'], dict(base, fair=1, outside_d7=False, only_safety=True, expect_typeerror=True)))
     else:
         tasks.append(('LTL', 2, ['A G p', 'A (p U q)', 'A F G p', 'A X p'], dict(base, fair=1)))
-    rep.cov['bounds'].update(n='2 (|F| in 0,1,2; atoms p,q) and 3 (|F|=1, atom p)', formulas=len(exact_forms), inside_class_formulas=len(egs),
+    rep.cov['bounds'].update(n='2 (|F| in 0,1,2) and 3 (|F|=1), atoms p,q', formulas=len(exact_forms), inside_class_formulas=len(egs),
                              classes_excluded=[x for x, o in (('D7', d7), ('D8', d8), ('D9', d9), ('D10', d10)) if o])
     done = 0
     for t, st, recs, secs in pmap(mc.mc_task, tasks + inside):
@@ -787,6 +788,12 @@ def run_c05(rep, tier):
         for b2 in bi3:
             for b3 in bi3:
                 paths.append(b1 % (b2 % ('p', 'q'), b3 % ('r', 's')))
+    # binary operator over a unary chain of depth 2 (either side), and unary chains of depth 3
+    un4 = formulas.LTL_UN
+    chains2 = [u1 % formulas.par(u2 % 'p') for u1 in un4 for u2 in un4]
+    for b1 in bi3:
+        paths += [b1 % (c2, 'q') for c2 in chains2] + [b1 % ('q', c2) for c2 in chains2]
+    paths += [u0 % formulas.par(c2) for u0 in un4 for c2 in chains2]
     paths += ['((p or q) or (r or s) or (X p or X r))', '((p and q) and (r and s) and (F p and G s))', '(not (p or q) or not (r or s))', '((p or q) or not (r or s))']
     paths += ['((p U q) R r)', '(F p --> G (q or X r))', '(p and q and r)', '(p or q or r)', 'not (p and not q and X r)', 'G F p', 'F G (p --> q)', '((p R q) U (q R r))']
     ctl = formulas.ctl_phi1() + formulas.ctl_pairs()[::(3 if tier == 'quick' else 1)] + formulas.ctl_phi2_quick()[::(9 if tier == 'quick' else 2)]
